@@ -3,7 +3,7 @@ import multiprocessing
 import random
 import struct
 
-from .. import common, tlc, absmap as A, engdrv as D, engcheck as E, sessdrv as S, ttlvcheck as TV, enggen as G
+from .. import common, tlc, absmap as A, engdrv as D, engcheck as E, sessdrv as S, ttlvcheck as TV, enggen as G, sesstrace as ST
 
 common.use_repo()
 from kmip.core import utils as kutils  # noqa
@@ -22,6 +22,9 @@ def mkframes(intern):
     bad = bytearray(valid)
     bad[11] = 0x0C                      # type byte of the request header: not a TTLV type
     return {"valid": valid, "refused": refused, "toolarge": toolarge, "undecodable": bytes(bad)}
+
+
+CLIENT_CFG = {"cert": "cn1", "eku": "client", "tlsauth": True}
 
 
 def cut_plan(frame, cut):
@@ -75,15 +78,16 @@ def _plans(chunk):
             elif plan["end"] == 2:
                 data += fr["valid"][:40]
                 chunks += [8, 32]
-            spy = S.EngineSpy(drv.engine)
             conn = S.FakeConn(data, cert=cert, plan=chunks)
+            spy = S.EngineSpy(drv.engine, log=conn.log)
             before = drv.state()
             escaped = S.run_session(spy, conn)
             after = drv.state()
+            trace = ST.make("p%d" % rec["n"], CLIENT_CFG, data, [], conn, drv.intern)
             kinds = [classify(x, drv.intern)[0] for x in conn.sent]
             nvalid = sum(1 for f in plan["frames"] if f["kind"] == "valid")
             out.append({"plan": plan, "sent": kinds, "calls": len(spy.calls), "escaped": escaped,
-                        "created": len(after["objs"]) - len(before["objs"]), "nvalid": nvalid,
+                        "created": len(after["objs"]) - len(before["objs"]), "nvalid": nvalid, "trace": trace,
                         "raw": [x.hex() for x in conn.sent[:3]]})
     finally:
         drv.close()
@@ -210,7 +214,7 @@ def _fuzz(args):
     r = random.Random(seed)
     drv = D.EngineDriver(intern=E.new_interner())
     cert = S.make_cert(1, "client")
-    res = {"frames": 0, "rejected": 0, "accepted": 0, "viol": [], "resp": [], "kinds": {}}
+    res = {"frames": 0, "rejected": 0, "accepted": 0, "viol": [], "resp": [], "kinds": {}, "traces": []}
     try:
         sd = seeds(drv.intern)
         query = A.encode(A.build_request(D.one("Query", {}), drv.intern), A.KV((1, 2)))
@@ -229,8 +233,8 @@ def _fuzz(args):
                 k = 1 if mode == "bytes" and r.random() < 0.8 else r.choice([1, 2, 3, 7, 8, 9, 64, 500, 5000])
                 plan.append(k)
                 left -= k
-            spy = S.EngineSpy(drv.engine)
             conn = S.FakeConn(data, cert=cert, plan=plan or None)
+            spy = S.EngineSpy(drv.engine, log=conn.log)
             marks = []
             orig = conn.sendall
 
@@ -242,6 +246,7 @@ def _fuzz(args):
             escaped = S.run_session(spy, conn)
             after = drv.state()
             res["frames"] += len(frames) + 1
+            res["traces"].append(ST.make("f%d-%d" % (wid, ci), CLIENT_CFG, data, [], conn, drv.intern))
             bad = []
             if escaped:
                 bad.append(("C12_exception_escapes", escaped[0]))
@@ -316,6 +321,29 @@ def max_size(run):
         drv.close()
 
 
+SL_INVS = ["OnePerFrame", "RightAnswers", "EngineOnlyServed", "NoOverRead", "ClosesClean", "Replacements"]
+
+
+def session_machine(run, quick):
+    """Leg A for the small-step session machine (SessionLoop.tla): every chunking of every plan of the bounded family,
+    and two negative controls (a receive loop that may over-read; an engine call after failed authentication)."""
+    inv = "".join("INVARIANT %s\n" % i for i in SL_INVS)
+    body = "CONSTANTS\n  MaxBuf <- MCMaxBuf\n  Plans <- %s\n%sCHECK_DEADLOCK FALSE\n" % ("PlansQuick" if quick else "PlansThorough", inv)
+    cfg = tlc.write_cfg("MC_SessionLoop.cfg", "SPECIFICATION SSpec\n" + body)
+    res = tlc.run("MC_SessionLoop", cfg, allow_violation=True, timeout=3000, heap="12g")
+    run.add_tlc(res, "MC_SessionLoop (%s): all chunkings, MaxBuf = 4" % ("PlansQuick" if quick else "PlansThorough"))
+    if res.violated:
+        raise common.MachineryFailure("SessionLoop.tla violates %s" % res.violated)
+    for spec, want in (("NegSpec", "NoOverRead"), ("Neg2Spec", "EngineOnlyServed")):
+        body = "CONSTANTS\n  MaxBuf <- MCMaxBuf\n  Plans <- PlansQuick\nINVARIANT %s\nCHECK_DEADLOCK FALSE\n" % want
+        cfg = tlc.write_cfg("MC_SessionLoop_%s.cfg" % spec, "SPECIFICATION %s\n" % spec + body)
+        neg = tlc.run("MC_SessionLoop", cfg, allow_violation=True, timeout=3000, heap="12g")
+        if want not in neg.violated:
+            raise common.MachineryFailure("negative control %s of SessionLoop.tla does not violate %s" % (spec, want))
+    run.extra["session_machine_negative_controls"] = {"over-reading receive loop": "NoOverRead violated",
+                                                      "engine entered after failed authentication": "EngineOnlyServed violated"}
+
+
 def check(run, tier):
     quick = tier == "quick"
     nfr = 2 if quick else 3
@@ -335,12 +363,16 @@ def check(run, tier):
     if res.violated:
         raise common.MachineryFailure("MC_C12: the modelled receive loop violates %s" % res.violated)
     plans = res.tag("PLAN")
+    for i, pl in enumerate(plans):
+        pl["n"] = i
+    session_machine(run, quick)
     S.make_cert(1, "client")
     E.rsa_pair()
     n = common.NCPU
     with multiprocessing.Pool(n) as pool:
         outs = pool.map(_plans, [plans[i::n] for i in range(n)])
     by = {common.jdump(p["plan"]): p for p in plans}
+    ST.judge(run, [o["trace"] for out in outs for o in out], name="c12plans", owners=("C12",))
     nrun = 0
     samples = []
     for out in outs:
@@ -372,6 +404,7 @@ def check(run, tier):
         fz = pool.map(_fuzz, [(i, common.SEED * 7919 + i, nconn) for i in range(n)])
     tot = {"frames": 0, "rejected": 0, "accepted": 0}
     kinds = {}
+    ST.judge(run, [t for f in fz for t in f["traces"]], name="c12corpus", owners=("C12",))
     for f in fz:
         for k in tot:
             tot[k] += f[k]
